@@ -24,6 +24,17 @@ var upstreamClient = &http.Client{
 	},
 }
 
+// Left to itself, net/http's transport adds "Accept-Encoding: gzip" to a request that names no
+// encoding and decodes the answer before we see it. The origin is then asked something the client
+// did not ask, and the client (and the store) get a body, a length and a Content-Encoding other than
+// the origin sent, next to the validators of the compressed representation. Encodings are the
+// client's and the origin's business; the proxy passes them through.
+func disableTransparentCompression() {
+	if t, ok := http.DefaultTransport.(*http.Transport); ok {
+		t.DisableCompression = true
+	}
+}
+
 func removeHopByHopHeaders(header http.Header) {
 	for _, v := range header.Values("Connection") {
 		for raw := range strings.SplitSeq(v, ",") {
